@@ -10,7 +10,14 @@ PROPERTIES_V = "theories/Properties/C16.v"
 CASE_IMPORTS = "From GV Require Import Prelude.Base Model.Merge."
 ALLOWED_AXIOMS: list = []
 REFUTED = ["C16_old_code_refuted (the pre-repair transcription; the repaired code is what Model/Merge.v follows)"]
-PARTIAL: list = []
+PARTIAL = ["C16_cells_partial (the code meets the cell specification when every input but the last has its last vertex referenced)",
+           "C16_merged_data (values at the right offsets, proved for all input lists; 'no-data where an input lacks the data set' and "
+           "'inputs unchanged' are checked by correspondence and oracle only: the model is purely functional)"]
+LEVEL_TEXT = ("Coq theorems over ALL lists of inputs (any sizes, cells, data): merged vertices are the inputs' vertices in order; the cell "
+              "specification joins the same coordinates (C16_spec_*); the code's offset rule equals the specification iff tails are referenced "
+              "(C16_cells_partial) and the full statement is refuted with a witness (C16_cells_refuted = open known finding); merged data sit at "
+              "their input's offset under their own label (C16_merged_data, by an invariant over the merge_data double loop). Tie: hand-written "
+              "model Merge.v vs. the real CurveMerger/SurfaceMerger/PointsMerger on generated inputs, evaluated by vm_compute; independent oracle.")
 TRUSTED = [
     "Coq 8.16.1 kernel + vm_compute (correspondence evaluation); no axioms (Print Assumptions: closed)",
     "hand-written model coq/theories/Model/Merge.v of PointsMerger/CellMerger.create_object and BaseMerger.merge_data; tied to the code by running both on the same generated inputs",
